@@ -4,7 +4,7 @@
 // boundaries incl. > 2^53, NaN / +-Inf / -0 / denormal / max doubles, every enum value and an
 // undefined one, non-ASCII strings, 0x00/0xff bytes, all-0xff ids).  Each payload goes through
 // the same protobuf and JSON oracles (round trips, JSON->proto agreement, alternate token forms)
-// as the random ones; one in four is also a correspondence case.
+// as the random ones; one in twelve is also a correspondence case.
 package pprofileotlp
 
 import (
@@ -168,8 +168,12 @@ func (r *vRun) directedCases() {
 			case vtBytes:
 				setters = append(setters, func(x reflect.Value) { x.SetBytes([]byte{0, 255, 128}) }, func(x reflect.Value) { x.SetBytes([]byte{}) })
 				if f.card == vcOneof && !vNilBytesDone {
-					vNilBytesDone = true // Value.SetEmptyBytes(): known finding C08-EMPTYBYTES, once per run
-					setters = append(setters, func(x reflect.Value) { x.SetBytes(nil) })
+					vNilBytesDone = true                              // Value.SetEmptyBytes(): known finding C08-EMPTYBYTES, once per run
+					setters = append(setters, func(x reflect.Value) { // what Value.SetEmptyBytes() stores (nil as the code stands)
+						if w := vAPIEmptyBytes(f.wrapper); w.IsValid() {
+							x.Set(w.Elem().Field(0))
+						}
+					})
 				}
 			case vtID:
 				setters = append(setters, func(x reflect.Value) {
@@ -182,7 +186,7 @@ func (r *vRun) directedCases() {
 				v, leaf := r.s.buildAlong(root, p.hops)
 				r.s.setLeaf(leaf, f, set)
 				n++
-				r.quiet = n%4 != 0
+				r.quiet = n%12 != 0
 				sg := p.sg
 				req := v.Addr().Interface()
 				b := r.protoValueCase(root, v,
